@@ -11,7 +11,7 @@ PROPS = "Props/C23.v"
 THEOREMS = ["C23_span_well_formed", "C23_span_well_formed_lexed", "C23_comments_are_source_text",
             "C23_extra_comments_same_locations", "C23_extra_comments_only_add_refuted",
             "C23_extra_comments_only_add_partial", "C23_extra_option_locs_only_add",
-            "C23_extra_option_locs_same_other_locations"]
+            "C23_extra_option_locs_same_other_locations", "C23_comment_units_in_source"]
 AXIOMS_OK = []
 TRUSTED = ["hand-written Gallina models: Model/FileInfo.v (positions, shared with C13), Model/Comments.v (makeSpan, comment attribution in both comment modes, the location list as a sequence of newLoc* calls with the commentsUsed map and the two mode flags)",
            "harness srcinfo (reflection walk of every path through the compiled descriptor with the file's extensions resolved) + checks/srcinfolib.py (oracles, gap extraction)"]
@@ -19,7 +19,7 @@ ASSUMPTIONS = ["which newLoc* calls the walk over the syntax tree issues, with w
                "columns inside the line are checked on the implementation only; the theorem bounds the lines",
                "int32 conversion of line and column numbers is assumed not to overflow"]
 
-CFG = set(x for x in os.environ.get("VERIF_C03_CFG", "").split(",") if x)
+CFG = S.CFG
 COQ_CFG = "(mkcfg %s %s %s)" % tuple(coq_bool(f in CFG) for f in ("fix_ws", "fix_empty", "fix_sep"))
 
 HEADER = ("From Coq Require Import List NArith ZArith Bool.\nImport ListNotations.\n"
@@ -84,7 +84,7 @@ def run(ctx):
             raise RuntimeError("base source does not compile: " + str(o)[:400])
         bases.append((b, S.Src(bytes.fromhex(o["data"]), o["items"])))
     cases = list(base_ins) + [{"mode": "compile", "text": c.hex()} for c in CORPUS]
-    for i in range(ctx.budget(70, 2500)):
+    for i in range(ctx.budget(60, 600)):
         b, src = bases[i % len(bases)]
         c = {"mode": "compile", "text": S.retrivia(rng, src, rich_all=rng.chance(1, 4)).hex()}
         if "dir" in b:
